@@ -293,7 +293,7 @@ def shapes(tier):
     opts = [{}, {"debug": True}, {"parallel": True}, {"random_values": True}, {"logics": "QF_LIA"}]
     if tier == "thorough":
         opts += [{"logics": "QF_IDL"}, {"debug": True, "parallel": True, "random_values": True}]
-    for obj, weights in (("makespan", None), ("min_bounded", None), ("max_bounded", None), ("max_user", None), ("min_cost", None), ("max_utilization", None), ("weighted_min", ("sym", "sym")),
+    for obj, weights in (("makespan", None), ("makespan_either_order", None), ("min_bounded", None), ("max_bounded", None), ("max_user", None), ("min_cost", None), ("max_utilization", None), ("weighted_min", ("sym", "sym")),
                          ("weighted_bounded_first", None), ("weighted_bounded_last", None)):
         for cfg in opts:
             out.append(c07.trace_shape(obj, cfg, max_checks=5, weights=weights, prop=PROP, only=("optimum_claim_justified", "objective_wiring"), prefix="optimisers_agree"))
